@@ -61,6 +61,75 @@ theorem coh_new (e : EL) (he : e.its = []) : Coh (itNew e 0) 0 0 := by
   simp only [he, EL.hrAt]
   rfl
 
+/-- the iterator stands INSIDE the list: on a record that exists, not beyond its hosts — or the list
+    is empty and the iterator is at its start.  (What the repaired `_iterator_advance`, F16-ENDPUSH,
+    maintains: an iterator with nothing left stays on the last host it handed out.) -/
+def AtPosL (L : List HRange) (i k : Nat) : Prop :=
+  (L = [] ∧ i = 0 ∧ k = 0) ∨ ∃ r, L[i]? = some r ∧ k ≤ r.hosts.length
+
+def AtPos (e : EL) (i k : Nat) : Prop := AtPosL e.ranges i k
+
+theorem AtPosL.zero (L : List HRange) : AtPosL L 0 0 := by
+  cases L with
+  | nil => exact Or.inl ⟨rfl, rfl, rfl⟩
+  | cons a l => exact Or.inr ⟨a, rfl, Nat.zero_le _⟩
+
+theorem AtPosL.of_get {L : List HRange} {i k : Nat} {r : HRange} (h : L[i]? = some r) (hk : k ≤ r.hosts.length) :
+    AtPosL L i k := Or.inr ⟨r, h, hk⟩
+
+theorem AtPosL.get {L : List HRange} {i k : Nat} (h : AtPosL L i k) (hne : L ≠ []) :
+    ∃ r, L[i]? = some r ∧ k ≤ r.hosts.length := by
+  rcases h with ⟨h0, _, _⟩ | h
+  · exact absurd h0 hne
+  · exact h
+
+theorem coh_unique {e : EL} {i k i' k' : Nat} (h : Coh e i k) (h' : Coh e i' k') : i = i' ∧ k = k' := by
+  unfold Coh at h h'
+  rw [h] at h'
+  simp only [List.cons.injEq, Prod.mk.injEq, ItSt.mk.injEq, true_and, and_true] at h'
+  omega
+
+/-- F16-ENDPUSH repaired: a `hostlist_next` that answers NULL leaves the iterator where it was -/
+theorem itNext_none_pos (cfg : Cfg) (hfx : cfg.fixEndPush = true) (e : EL) (hid : e.IdsOk) (i k : Nat)
+    (hc : Coh e i k) (e' : EL) (h : itNext cfg e 0 = .ok (none, e')) : Coh e' i k ∧ e'.rs = e.rs := by
+  have hgi := hc.getIt
+  unfold itNext at h
+  rw [hgi] at h
+  cases hr : e.rs[i]? with
+  | none =>
+    have hlen : e.rs.length ≤ i := by simpa using hr
+    have hcond : ((i : Int) > (e.rs.length : Int) - 1) := by omega
+    simp only [itAdvance, hcond, ↓reduceIte, Bool.not_false, Except.ok.injEq, Prod.mk.injEq, true_and] at h
+    rw [← h]
+    refine ⟨?_, rfl⟩
+    unfold Coh
+    rw [hc.setIt]
+    rfl
+  | some o =>
+    have hlt : i < e.rs.length := (List.getElem?_eq_some_iff.mp hr).1
+    have hcond : ¬ ((i : Int) > (e.rs.length : Int) - 1) := by omega
+    have hderef := deref_hrAt e hid i o hr
+    have hoid : e.hrAt (i : Int) = some o.id := by rw [hrAt_nat, hr]; rfl
+    have hderef' : e.deref (some o.id) = .ok o := by rw [← hoid]; exact hderef
+    by_cases hadv : (((k : Int) - 1 + 1).toNat > subU64 o.r.hi o.r.lo)
+    · by_cases hlast : (i : Int) = (e.rs.length : Int) - 1
+      · simp only [itAdvance, hcond, ↓reduceIte, hfx, hoid, hderef', hadv] at h
+        rw [if_pos hlast] at h
+        simp only [Bool.not_false, ↓reduceIte, Except.ok.injEq, Prod.mk.injEq, true_and] at h
+        rw [← h]
+        refine ⟨?_, rfl⟩
+        unfold Coh
+        rw [hc.setIt]
+        have : (e.setIt 0 ⟨(i : Int), (k : Int) - 1, some o.id⟩).hrAt (i : Int) = e.hrAt (i : Int) := rfl
+        rw [this, hoid]
+      · simp only [itAdvance, hcond, ↓reduceIte, hfx, hoid, hderef', hadv] at h
+        rw [if_neg hlast] at h
+        simp only [Bool.not_true, Bool.false_eq_true, ↓reduceIte] at h
+        split at h <;> simp at h
+    · simp only [itAdvance, hcond, ↓reduceIte, hfx, hoid, hderef', hadv] at h
+      simp only [Bool.not_true, Bool.false_eq_true, ↓reduceIte] at h
+      split at h <;> simp at h
+
 /-- ONE `hostlist_next` from (record i, k names given): the head of `remaining`, and the iterator
     then stands behind it -/
 theorem itNext_spec (cfg : Cfg) (e : EL) (hid : e.IdsOk) (hg : ∀ r ∈ e.ranges, r.Good)
@@ -555,7 +624,7 @@ theorem removeGuard_ok (o : RObj) (k : Nat) (hg : o.r.Good) (hk1 : 1 ≤ k) (hk 
 
 /-- ONE `hostlist_remove` after a `hostlist_next` that handed out the (k-1)-th name of record i:
     exactly that host leaves the list, and the iterator stands in front of what was left -/
-theorem itRemove_spec (cfg : Cfg) (hfix : cfg.fixRemoveDepth = true) (P : HRange → Prop)
+theorem itRemove_spec_pos (cfg : Cfg) (hfix : cfg.fixRemoveDepth = true) (P : HRange → Prop)
     (hmono : ∀ r r' : HRange, P r → r'.width = r.width → r'.hi ≤ r.hi → r'.single = r.single → P r')
     (e : EL) (hid : e.IdsOk) (hg : e.Good)
     (hn : ∀ q ∈ e.ranges, P q) (i k : Nat) (hc : Coh e i k) (r : HRange)
@@ -564,7 +633,8 @@ theorem itRemove_spec (cfg : Cfg) (hfix : cfg.fixRemoveDepth = true) (P : HRange
       (∀ q ∈ e2.ranges, P q) ∧ Coh e2 i2 k2 ∧
       (∀ q, e2.ranges[i2]? = some q → k2 ≤ q.hosts.length) ∧
       remaining e2.ranges i2 k2 = remaining e.ranges i k ∧
-      e2.hosts = hostsL (e.ranges.take i) ++ r.hosts.take (k - 1) ++ remaining e.ranges i k := by
+      e2.hosts = hostsL (e.ranges.take i) ++ r.hosts.take (k - 1) ++ remaining e.ranges i k ∧
+      AtPos e2 i2 k2 := by
   -- lay the list out as A ++ o :: B
   obtain ⟨o, hro, hor⟩ : ∃ o, e.rs[i]? = some o ∧ o.r = r := by
     rw [ranges_getElem?] at hr
@@ -665,7 +735,7 @@ theorem itRemove_spec (cfg : Cfg) (hfix : cfg.fixRemoveDepth = true) (P : HRange
           ⟨B, nh - 1, nx, [(0, ⟨((0 : Nat) : Int), ((0 : Nat) : Int) - 1, EL.hrAt ⟨B, nh - 1, nx, []⟩ ((0 : Nat) : Int)⟩)]⟩
           [] o.r (B.map (·.r)) [] 1 (by simp [EL.ranges]) (by simp [EL.ranges]) hmid0 (by simpa using hg)
           (by simpa using hn) (Nat.le_refl _) (by omega) (by simp) (by simp) rfl
-        refine ⟨h1, h2, rfl, by intro q _; omega, ?_, ?_⟩
+        refine ⟨h1, h2, rfl, by intro q _; omega, ?_, ?_, AtPosL.zero _⟩
         · rw [hd1]
           simp only [List.nil_append]
           exact remaining_zero _
@@ -683,7 +753,7 @@ theorem itRemove_spec (cfg : Cfg) (hfix : cfg.fixRemoveDepth = true) (P : HRange
           ⟨A' ++ p :: B, nh - 1, nx, [(0, ⟨(A'.length : Int), (subU64 p.r.hi p.r.lo : Nat), some p.id⟩)]⟩
           ((A' ++ [p]).map (·.r)) o.r (B.map (·.r)) [] 1 (by simp [EL.ranges]) (by simp [EL.ranges]) hmid0 hg
           hn (Nat.le_refl _) (by omega) (by simp) (by simp) rfl
-        refine ⟨h1, h2, ?_, ?_, ?_, ?_⟩
+        refine ⟨h1, h2, ?_, ?_, ?_, ?_, AtPosL.of_get (r := p.r) (by simp [EL.ranges]) (Nat.le_refl _)⟩
         · unfold Coh
           simp only
           rw [hrAt_mid]
@@ -714,7 +784,7 @@ theorem itRemove_spec (cfg : Cfg) (hfix : cfg.fixRemoveDepth = true) (P : HRange
         hn hk1 hk (by simpa using hg') (by simpa using hp') rfl
       have hr2 : EL.ranges ⟨A ++ { o with r := r' } :: B, nh - 1, nx, [(0, ⟨(A.length : Int), (k : Int) - 1 - 1, some o.id⟩)]⟩ =
           A.map (·.r) ++ r' :: B.map (·.r) := by simp [EL.ranges]
-      refine ⟨h1, h2, ?_, ?_, ?_, ?_⟩
+      refine ⟨h1, h2, ?_, ?_, ?_, ?_, AtPosL.of_get (r := r') (by simp [EL.ranges]) hlen⟩
       · unfold Coh
         simp only
         rw [hrAt_mid]
@@ -745,7 +815,8 @@ theorem itRemove_spec (cfg : Cfg) (hfix : cfg.fixRemoveDepth = true) (P : HRange
           [(0, ⟨((A.length + 1 : Nat) : Int), ((0 : Nat) : Int) - 1, some nx⟩)]⟩ =
           (A.map (·.r) ++ [r']) ++ up :: B.map (·.r) := by simp [EL.ranges]
       have hl2 : (A.map (·.r) ++ [r']).length = A.length + 1 := by simp
-      refine ⟨h1, h2, ?_, by intro q _; omega, ?_, ?_⟩
+      refine ⟨h1, h2, ?_, by intro q _; omega, ?_, ?_,
+        AtPosL.of_get (r := up) (by rw [hr2, ← hl2]; simp) (Nat.zero_le _)⟩
       · unfold Coh
         simp only
         have e1 : A ++ ({ o with r := r' } : RObj) :: (⟨nx, up⟩ : RObj) :: B =
@@ -755,5 +826,20 @@ theorem itRemove_spec (cfg : Cfg) (hfix : cfg.fixRemoveDepth = true) (P : HRange
       · rw [hr2, ← hl2, remaining_mid, hh2]
         simp
       · rw [h3]
+
+/-- ONE `hostlist_remove` (the statement C02's filter loop uses) -/
+theorem itRemove_spec (cfg : Cfg) (hfix : cfg.fixRemoveDepth = true) (P : HRange → Prop)
+    (hmono : ∀ r r' : HRange, P r → r'.width = r.width → r'.hi ≤ r.hi → r'.single = r.single → P r')
+    (e : EL) (hid : e.IdsOk) (hg : e.Good)
+    (hn : ∀ q ∈ e.ranges, P q) (i k : Nat) (hc : Coh e i k) (r : HRange)
+    (hr : e.ranges[i]? = some r) (hk1 : 1 ≤ k) (hk : k ≤ r.hosts.length) :
+    ∃ (e2 : EL) (i2 k2 : Nat), itRemove cfg e 0 = .ok e2 ∧ e2.IdsOk ∧ e2.Good ∧
+      (∀ q ∈ e2.ranges, P q) ∧ Coh e2 i2 k2 ∧
+      (∀ q, e2.ranges[i2]? = some q → k2 ≤ q.hosts.length) ∧
+      remaining e2.ranges i2 k2 = remaining e.ranges i k ∧
+      e2.hosts = hostsL (e.ranges.take i) ++ r.hosts.take (k - 1) ++ remaining e.ranges i k := by
+  obtain ⟨e2, i2, k2, h1, h2, h3, h4, h5, h6, h7, h8, _⟩ :=
+    itRemove_spec_pos cfg hfix P hmono e hid hg hn i k hc r hr hk1 hk
+  exact ⟨e2, i2, k2, h1, h2, h3, h4, h5, h6, h7, h8⟩
 
 end PdshVerif.Hostlist
